@@ -475,7 +475,8 @@ class CallMixin:
             if q in self.opaque_funcs:
                 self.event("call_repo_func", func=q, args=args)
                 return Sym("call", RefV(q), tuple(args), _kw(kwargs))
-            if any(isinstance(a, Sym) and a.op == "star" for a in args):
+            args = self.flatten_stars(args)
+            if any(isinstance(a, Sym) and a.op == "star" for a in args) and not self.stars_fit_vararg(func.fn, args, 0):
                 self.event("star_call", func=q)
                 return Sym("call", RefV(q), tuple(args), _kw(kwargs))
             if "**" in kwargs:
@@ -707,10 +708,35 @@ class CallMixin:
         if stub is not None and stub(looked_up) and len(self.stack) >= 1:
             self.event("stub_call", name=looked_up, cls=b.cls, args=list(args), kwargs=dict(kwargs))
             return Sym("stubcall", f"{b.cls}.{looked_up}", tuple(args))
-        if any(isinstance(a, Sym) and a.op == "star" for a in args):
+        args = self.flatten_stars(args)
+        if any(isinstance(a, Sym) and a.op == "star" for a in args) and not self.stars_fit_vararg(b.fn, args, 1):
             self.event("star_call", func=name)
             return Sym("call", Sym("attr", obj, name), tuple(args), _kw(kwargs))
         return self.call_function(b.module, b.fn, [obj] + list(args), kwargs, b.cls)
+
+    def flatten_stars(self, args: List[V]) -> List[V]:
+        """f(a, *xs): a starred argument whose items are known is spliced in place"""
+        if not any(isinstance(a, Sym) and a.op == "star" for a in args):
+            return list(args)
+        out: List[V] = []
+        for a in args:
+            if isinstance(a, Sym) and a.op == "star":
+                items = self.concrete_items(self.resolve_alt(a.args[0]))
+                if items is not None and not any(isinstance(x, Sym) and x.op in ("elemof", "star") for x in items):
+                    out.extend(items)
+                    continue
+            out.append(a)
+        return out
+
+    @staticmethod
+    def stars_fit_vararg(fn, args: List[V], bound: int) -> bool:
+        """Do all starred arguments of unknown length land in the callee's *args parameter?"""
+        a = getattr(fn, "args", None)
+        if a is None or a.vararg is None:
+            return False
+        npos = len(a.posonlyargs) + len(a.args) - bound
+        first = next(i for i, x in enumerate(args) if isinstance(x, Sym) and x.op == "star")
+        return first >= npos
 
     def call_ref(self, func: RefV, args, kwargs, module, node, env) -> V:
         q = func.qual
@@ -1017,7 +1043,12 @@ class CallMixin:
             return self.any_all(name, a[0], module, node)
         if name in ("list", "tuple"):
             if not a:
-                return PyList([]) if name == "list" else PyTuple([])
+                if name == "tuple":
+                    return PyTuple([])
+                l0 = PyList([])
+                l0.created_in = self._frame_id()
+                l0._loop_depth = len(self.loop_ctx)  # type: ignore[attr-defined]
+                return l0
             v = a[0]
             items = self.concrete_items(v)
             if items is None and isinstance(v, PyDict) and not v.opaque_keys:
